@@ -33,6 +33,7 @@ def configs(tier):
                 out.append(dict(group="extract", k=2, ns=1, idf=idf, want=want, mismatch=False, skips=list(skips), small=True))
             out.append(dict(group="extract", k=2, ns=1, idf=idf, want=want, mismatch=True, skips=[True, True, True], small=True))
         out.append(dict(group="encode", k=2, ns=1, small=True))
+        out.append(dict(group="encode", k=2, ns=1, small=True, layout="two"))
         return out
     for k, ns in [(2, 2), (3, 1)]:
         for idf in ("SM", "ID"):
@@ -41,6 +42,9 @@ def configs(tier):
                     for skips in itertools.product((False, True), repeat=3):
                         out.append(dict(group="extract", k=k, ns=ns, idf=idf, want=want, mismatch=mism, skips=list(skips), small=(k == 3)))
     out.append(dict(group="encode", k=2, ns=2, small=False))
+    out.append(dict(group="encode", k=2, ns=2, small=False, layout="two"))
+    out.append(dict(group="encode", k=3, ns=1, small=True))
+    out.append(dict(group="encode", k=3, ns=1, small=True, layout="two"))
     return out
 
 
@@ -285,12 +289,16 @@ def _run_encode(c, col):
                            ignore_base_phred_scores=True, base_error_rate=0.0, samples=["pool"], sample_ploidy={"pool": 2}, sample_inbreeding={"pool": 0},
                            info_fields=[], format_fields=[], precision=3).items():
             setattr(prog, kk, vv)
-        data = prog._locus_data(_Locus(ns), {"pool": [("A", "x.bam"), ("B", "x.bam")]})
+        layout = c.get("layout", "pool")
+        prog.samples, sample_bams = _layout(layout)
+        prog.sample_ploidy = {s_: 2 for s_ in prog.samples}
+        prog.sample_inbreeding = {s_: 0 for s_ in prog.samples}
+        data = prog._locus_data(_Locus(ns), sample_bams)
         prog.encode_sample_reads(data)
-        # the matrices the pool is made of (same path condition)
+        # the matrices each column is made of (same path condition): the members' own filtered pileups
         ea = bam.extract_read_variants(_Locus(ns), f, samples="A", id="SM", min_quality=1)["A"][0]
         eb = bam.extract_read_variants(_Locus(ns), f, samples="B", id="SM", min_quality=1)["B"][0]
-        return data, rnp.concatenate([ea, eb]), FORMAT, ns
+        return data, {"A": ea, "B": eb}, FORMAT, ns
 
     first = True
     for pr in E.explore(body, stats=col.stats):
@@ -301,28 +309,44 @@ def _run_encode(c, col):
         if first:
             col.reachable(pr.ctx)
             first = False
-        data, chars, FORMAT, ns = pr.value
-        sd = data.sampledata
-        n = len(chars)
-        depth = [(chars[:, j] != "-").sum() for j in range(ns)] if n else [0] * ns
-        calls = [[{"A": 0, "C": 1}.get(str(x), -1) for x in row] for row in chars]
-        problems = []
-        if int(sd[FORMAT.RCOUNT]["pool"]) != n:
-            problems.append("RCOUNT %s != %d rows" % (sd[FORMAT.RCOUNT]["pool"], n))
-        if [int(x) for x in rnp.atleast_1d(sd[FORMAT.SNVDP]["pool"])] != [int(x) for x in depth]:
-            problems.append("SNVDP %s != %s" % (sd[FORMAT.SNVDP]["pool"], depth))
-        if float(sd[FORMAT.DP]["pool"]) != float(rnp.round(rnp.mean(depth))):
-            problems.append("DP %s != round(mean %s)" % (sd[FORMAT.DP]["pool"], depth))
-        if int(sd[FORMAT.RCALLS]["pool"]) != sum(1 for r in calls for x in r if x >= 0):
-            problems.append("RCALLS %s" % sd[FORMAT.RCALLS]["pool"])
-        if rnp.asarray(data.read_calls["pool"]).tolist() != calls:
-            problems.append("read_calls %s != %s" % (rnp.asarray(data.read_calls["pool"]).tolist(), calls))
-        if int(rnp.sum(data.read_counts["pool"])) != n:
-            problems.append("sum of de-duplicated read counts %s != %d" % (data.read_counts["pool"], n))
+        data, members, FORMAT, ns = pr.value
+        problems = _encode_problems(data, members, FORMAT, ns, c.get("layout", "pool"))
         if problems:
-            col.fail(site, "pool-counts", witness=dict(chars=chars.tolist(), problems=problems, model=E.model_dict(E.prove(pr.ctx, False).model)), desc="; ".join(problems))
+            col.fail(site, "pool-counts", shape=dict(layout=c.get("layout", "pool")), witness=dict(members={k_: v_.tolist() for k_, v_ in members.items()}, problems=problems, model=E.model_dict(E.prove(pr.ctx, False).model)), desc="; ".join(problems))
         else:
-            col.ok("pool matrix == concatenation of its members' filtered pileups; RCOUNT/DP/SNVDP/RCALLS/read_calls/read_counts recomputed from it")
+            col.ok("every column's matrix == concatenation of its members' own filtered pileups (members share one alignment file; layout %s); RCOUNT/DP/SNVDP/RCALLS/read_calls/read_counts recomputed from it" % c.get("layout", "pool"))
+
+
+def _layout(layout):
+    """sample -> [(member, path)]: one pool of A and B, or A and B as two samples -- in both cases read from the SAME alignment file"""
+    if layout == "pool":
+        return ["pool"], {"pool": [("A", "x.bam"), ("B", "x.bam")]}
+    return ["A", "B"], {"A": [("A", "x.bam")], "B": [("B", "x.bam")]}
+
+
+def _encode_problems(data, members, FORMAT, ns, layout):
+    """DP / RCOUNT / RCALLS / SNVDP / read_calls / read_counts of every column recomputed from its members' character matrices"""
+    sd = data.sampledata
+    problems = []
+    samples, sample_bams = _layout(layout)
+    for name in samples:
+        chars = rnp.concatenate([rnp.asarray(members[m_]).reshape(-1, ns) for m_, _ in sample_bams[name]])
+        n = len(chars)
+        depth = [int((chars[:, j] != "-").sum()) for j in range(ns)] if n else [0] * ns
+        calls = [[{"A": 0, "C": 1}.get(str(x), -1) for x in row] for row in chars]
+        if int(sd[FORMAT.RCOUNT][name]) != n:
+            problems.append("%s: RCOUNT %s != %d rows" % (name, sd[FORMAT.RCOUNT][name], n))
+        if [int(x) for x in rnp.atleast_1d(sd[FORMAT.SNVDP][name])] != depth:
+            problems.append("%s: SNVDP %s != %s (reads with a base aligned to the SNV)" % (name, rnp.atleast_1d(sd[FORMAT.SNVDP][name]).tolist(), depth))
+        if float(sd[FORMAT.DP][name]) != float(rnp.round(rnp.mean(depth))):
+            problems.append("%s: DP %s != round(mean %s)" % (name, sd[FORMAT.DP][name], depth))
+        if int(sd[FORMAT.RCALLS][name]) != sum(1 for r in calls for x in r if x >= 0):
+            problems.append("%s: RCALLS %s != %d" % (name, sd[FORMAT.RCALLS][name], sum(1 for r in calls for x in r if x >= 0)))
+        if rnp.asarray(data.read_calls[name]).tolist() != calls:
+            problems.append("%s: read_calls %s != %s (its own members' reads)" % (name, rnp.asarray(data.read_calls[name]).tolist(), calls))
+        if int(rnp.sum(data.read_counts[name])) != n:
+            problems.append("%s: sum of de-duplicated read counts %s != %d" % (name, data.read_counts[name], n))
+    return problems
 
 
 # ------------------------------------------------------------------ replay on real pysam with a synthetic SAM file
@@ -446,7 +470,54 @@ def replay(v):
 
 
 def _replay_encode(v):
-    return False, "pool-counts replay not implemented (the symbolic run executes the real encode_sample_reads on stub alignments)"
+    """the real program.encode_sample_reads on a real BAM written from the model; expectation from the real per-member extraction"""
+    import os
+    import shutil
+    import tempfile
+    import pysam
+    from mchap.application import baseclass as rbc
+    from mchap.io.bam import extract_read_variants
+    import mchap.io.vcf.formatfields as FORMAT
+
+    c = v["config"]
+    m = v.get("model") or (v.get("witness") or {}).get("model") or {}
+    k, ns, layout = c["k"], c.get("ns", 1), c.get("layout", "pool")
+    tmp = tempfile.mkdtemp(prefix="mchap-c06-")
+    try:
+        sam = os.path.join(tmp, "x.sam")
+        _write_sam(sam, k, m, False, ns)
+        bamp = os.path.join(tmp, "s.bam")
+        pysam.sort("-o", bamp, sam)
+        ref = ["T"] * 1000
+        ref[100], ref[101] = "T", "G"
+        ref[102] = ref[105] = "A"
+        fa = os.path.join(tmp, "ref.fa")
+        open(fa, "w").write(">chr1\n" + "".join(ref) + "\n")
+        pysam.faidx(fa)
+        md = os.path.join(tmp, "x.bam")
+        with open(md, "wb") as out:
+            out.write(pysam.calmd("-b", bamp, fa))
+        pysam.index(md)
+        samples, sample_bams = _layout(layout)
+        sample_bams = {s_: [(mem, md) for mem, _ in pairs] for s_, pairs in sample_bams.items()}
+        prog = rbc.program.__new__(rbc.program)
+        for kk, vv in dict(ref=fa, read_group_field="SM", mapping_quality=10, skip_duplicates=True, skip_qcfail=True, skip_supplementary=True,
+                           ignore_base_phred_scores=True, base_error_rate=0.01, samples=samples, sample_ploidy={s_: 2 for s_ in samples},
+                           sample_inbreeding={s_: 0 for s_ in samples}, info_fields=[], format_fields=[], precision=3).items():
+            setattr(prog, kk, vv)
+        data = prog._locus_data(_Locus(ns), sample_bams)
+        try:
+            prog.encode_sample_reads(data)
+        except Exception as e:
+            return v.get("kind") == "exception", "real encode_sample_reads raised %r" % (e,)
+        members = {}
+        with pysam.AlignmentFile(md) as f:
+            for mem in ("A", "B"):
+                members[mem] = extract_read_variants(_Locus(ns), f, samples=mem, id="SM", min_quality=10)[mem][0]
+        problems = _encode_problems(data, members, FORMAT, ns, layout)
+        return bool(problems), "real BAM with %d alignments (layout %s): %s" % (k, layout, "; ".join(problems) if problems else "columns equal their members' pileups")
+    finally:
+        shutil.rmtree(tmp, ignore_errors=True)
 
 
 def validate(seed):
